@@ -10,6 +10,8 @@ SPEC = {
          "common": {"shrinktime": "1s"},
          "quick": {"checks": 40, "shards": 2, "timeout": 300},
          "thorough": {"checks": 400, "shards": 8, "timeout": 1500, "race": True}},
+        {"name": "fuzz-lockstep", "pkg": O4, "kind": "fuzz", "fuzz": "FuzzVerifC01Lockstep", "tiers": ("thorough",),
+         "thorough": {"fuzztime": "120s", "timeout": 600}},
     ],
 }
 
